@@ -204,6 +204,9 @@ pub enum PFn {
     Succ,
     /// out == h * h where `in` is (syntactically) a list cell whose head is the number h
     HeadSquare,
+    /// succeeds iff `in` contains (syntactically, descending lists and compound terms without
+    /// walking) no variable
+    IsGround,
 }
 
 #[derive(Clone, Debug, PartialEq, Eq, Hash, Serialize, Deserialize)]
